@@ -134,12 +134,12 @@ PROPS = {
         level_text="(selection) every ordered list of up to 3 of 6 generated leafs x 10 server names x strict/non-strict against the stated exact -> wildcard -> first/none rule, through getCertificate and real in-memory handshakes. (histories) every history up to length 4 (thorough 5) of 7 kinds of source answers through the real cert.watch with virtual sleep: published sets, never publishing bad material, no spinning. (schedules) every interleaving up to the reported bound of a publisher, the store's applier goroutine and 1-2 handshake threads.",
         level_note="Wildcards are single-label (*.foo.com). The vault/consul/http sources share the watch loop; their transport is not exercised. When two certificates name the same host the later one is expected to win (that is what an index built in order does); first-wins would be flagged although the statement does not order them - no such set is in the alphabet except via the hand-picked pool where names are distinct.",
         units=[
-        unit("c11-select", "cert", ["cert/c11_test.go"], "^TestVerifC11Select", engines=SCHED + ["vhook"]),
+        unit("c11-select", "cert", ["cert/c11_test.go"], "^TestVerifC11(Select|Publish)", engines=SCHED + ["vhook"]),
         unit("c11-load", "cert", ["cert/c11_test.go", "cert/c11_load_test.go"], "^TestVerifC11Load", engines=SCHED + ["vhook"], rewrite=[{"files": ["cert/load.go"], "opts": ["-sortrange=pemBlocks", "-only", "loadCertificates"]}]),
         unit("c11-watch", "cert", ["cert/c11_test.go"], "^TestVerifC11Watch", engines=SCHED + ["vhook"], rewrite=[{"files": ["cert/watch.go"], "opts": ["-sel", "time.Sleep=vhook.Sleep"]}]),
         unit("c11-sched", "cert", ["cert/c11_test.go"], "^TestVerifC11Sched", engines=SCHED + ["vhook"], race=True, sched_env={"GOMAXPROCS": "1"}, shards={"quick": 1, "thorough": 16},
              rewrite=[{"files": ["cert/store.go"], "opts": ["-imports", "-stmt", "-only", "SetCertificates,certstore,getCertificate"]}, {"files": ["cert/source.go"], "opts": ["-imports", "-go", "-chan", "-only", "TLSConfig"]}]),
-    ], layers={"quick": ["c11-select", "c11-load", "c11-watch", "c11-sched"], "thorough": ["c11-select", "c11-load", "c11-watch", "c11-sched"]}),
+    ], layers={"quick": ["c11-select", "c11-publish", "c11-load", "c11-watch", "c11-sched"], "thorough": ["c11-select", "c11-publish", "c11-load", "c11-watch", "c11-sched"]}),
     "C19": dict(level="exploration", engine="benum",
         technique="bounded-exhaustive configuration product through transport.SetConfig and main.newHTTPProxy, plus a causal timeout scenario matrix",
         level_text="All 3^5 combinations of the five proxy transport options are pushed through the real transport.SetConfig and the three ways fabio builds transports (default, skip-verify, per-route host override) and read back field by field; the response-header timeout is additionally exercised end to end through ServeHTTP against an upstream that holds its headers until the harness releases it.",
@@ -209,7 +209,7 @@ LAYER_UNIT = {"c06-sched": "c06", "c03-select": "c03", "c03-lookuphost": "c03", 
               "c07-request": "c07", "c07-response": "c07", "c07-wire": "c07", "c07-history": "c07", "c08-headers": "c08", "c08-websocket": "c08", "c09-tunnels": "c09", "c09-proxyline": "c09-sockets", "c09-websocket": "c09-ws",
               "c10-sni": "c10", "c12-rules": "c12-rules", "c13-inputs": "c13", "c13-sched": "c13", "c14-registrations": "c14", "c14-multi": "c14", "c15-sources": "c15-config",
               "c15-robust": "c15-config", "c15-junk": "c15-config", "c16-calls": "c16", "c16-history": "c16", "c19-config": "c19", "c19-behaviour": "c19", "c19-history": "c19", "c20-fields": "c20-logger", "c20-e2e": "c20-formatters",
-              "c20-formats": "c20-logger", "c20-atoi": "c20-logger", "c01-health": "c01-health"}
+              "c20-formats": "c20-logger", "c20-atoi": "c20-logger", "c01-health": "c01-health", "c11-publish": "c11-select"}
 
 def layer_unit(pid, layer):
     layer = (layer or "").replace(".race", "")
